@@ -389,8 +389,12 @@ func (r *rewriter) foreignPkgVar(id *ast.Ident) *types.Var {
 		return nil
 	}
 	n := namedOf(v.Type())
-	if n == nil || n.Obj().Pkg() == nil || inModule(n) || n.Obj().Pkg().Path() == "verif/simrt" {
+	if n == nil || n.Obj().Pkg() == nil || inModule(n) {
 		return nil
+	}
+	switch n.Obj().Pkg().Path() {
+	case "verif/simrt", "sync", "sync/atomic":
+		return nil // synchronisation objects are modelled by their shims, not as plain memory
 	}
 	switch n.Underlying().(type) {
 	case *types.Struct, *types.Interface:
